@@ -324,7 +324,7 @@ func TestC13(t *testing.T) {
 func TestC12(t *testing.T) {
 	spec := &GenSpec{Prop: "C12", Backings: []string{"store"}, Children: exclChildren("C12"), Compaction: []int{0, 0, 1}}
 	applyExclusions(spec)
-	Col.SetProp("C12", "store-backed programs over {batch, merger cycle (each hands the dirty data to a persistence round that completes), walk back N steps with SnapshotPrevious, SnapshotRevert to the snapshot N steps back (collection closed first, then a new collection is opened on the store), drain+reopen}, compaction disabled or allowed. The oracle records the store content after every round that wrote a footer (Store.Stats total_persists delta), reset by any compaction; walking back must yield these newest first, each compared completely, then nil; a revert to a snapshot obtained since the last compaction must succeed, the store's snapshot and a reopened copy of the directory must equal the target, later batches build on it; a final full walk and reopen close every case. Non-trivial: a walk of >= 2 steps over rounds with deletions, or a revert followed by new batches. Distinct = distinct program hash.")
+	Col.SetProp("C12", "store-backed programs over {batch, merger cycle (each hands the dirty data to a persistence round that completes), walk back N steps with SnapshotPrevious, SnapshotRevert to the snapshot N steps back (collection closed first, then a new collection is opened on the store), drain+reopen}, compaction disabled or allowed. The oracle records the store content after every round that wrote a footer (Store.Stats total_persists delta), reset by any compaction; walking back must yield these newest first, each compared completely, then nil; a revert to a snapshot obtained since the last compaction must succeed, the store's snapshot, a reopened copy of the directory AND (syncing on; file operations recorded) the power-loss image of the directory at the moment SnapshotRevert returned - every file cut back to what its last completed Sync covers, natural and extended length - must equal the target, later batches build on it; a final full walk and reopen close every case. Non-trivial: a walk of >= 2 steps over rounds with deletions, or a revert followed by new batches. Distinct = distinct program hash.")
 	rapid.Check(t, func(rt *rapid.T) {
 		p, excluded := genC12(rt, spec)
 		c := RunC12(rt, p)
@@ -367,7 +367,7 @@ func TestC05(t *testing.T) {
 
 func TestC06(t *testing.T) {
 	spec := &GenSpec{Prop: "C06", Backings: []string{"store"}, MaxOps: 16, Reopen: true, BigBatches: true,
-		Children: exclChildren("C06"), Compaction: []int{0, 1, 2, 2}}
+		Children: exclChildren("C06"), Compaction: []int{0, 1, 1, 2}}
 	applyExclusions(spec)
 	if spec.NoStructOnlyEmpty {
 		// with injected faults the store can hold nothing although key
@@ -382,7 +382,7 @@ func TestC06(t *testing.T) {
 		if !thorough {
 			for i := 0; i < 12; i++ {
 				f := FaultSpec{Site: rapid.IntRange(0, 400).Draw(rt, "site"), ShortPct: -1}
-				f.Class = rapid.SampledFrom([]string{"", "", "", "header", "footer", "data", "sync", "open", "stat"}).Draw(rt, "class")
+				f.Class = rapid.SampledFrom([]string{"", "", "header", "footer", "data", "data", "data", "sync", "open", "stat"}).Draw(rt, "class")
 				switch pick(rt, "shape", 50, 25, 25) {
 				case 0:
 					f.Shape = "single"
